@@ -281,7 +281,11 @@ def check_case(run: common.Run, kind: str, op: str, a: Any, b: Any, routes: str,
     run.event(f"{kind}:{op}")
     run.event("expected-error" if expc == ERR else "expected-value")
     observations = []
-    A, B = wrap(kind, a), (wrap(kind, b) if b is not None else None)
+    try:
+        A, B = wrap(kind, a), (wrap(kind, b) if b is not None else None)
+    except Exception as ex:  # an in-range value that cannot even be constructed
+        report(f"{kind}-construct-in-range-value-fails", case, f"{type(ex).__name__}: {ex}")
+        return
     if "a" in routes:
         if op == "neg":
             observations.append(("dunder", api_call(operator.neg, A)))
